@@ -73,7 +73,7 @@ func init() {
 
 func (p *c15) ID() string { return "C15" }
 func (p *c15) Rule() string {
-	return "histories over a 27-symbol alphabet {edit page/component/layout x mtime policy (advance, equal, backwards, zero), front-matter-only and body-only edits, delete/recreate page/component/layout, create/delete a layout next to the page that shadows layouts/lay.vuego, delete/recreate the default layouts/base.vuego, make page/component invalid (bad YAML), render the page via Load().Render / RenderFile / Vue.Render, render a second page that names no layout} on a page with front-matter + include + layout; exhaustive for length <=3 (quick) / <=4 (thorough) each followed by the four renders, plus seeded histories of length 6-20; after every render step the long-lived engine's (bytes, error-ness) is compared with a fresh engine; cache hit/miss/store hook counts prove which comparisons were answered from the cache; non-trivial = history containing at least one edit followed by a render; distinct by the op list"
+	return "histories over a 27-symbol alphabet {edit page/component/layout x mtime policy (advance, equal, backwards, zero), front-matter-only and body-only edits, delete/recreate page/component/layout, create/delete a layout next to the page that shadows layouts/lay.vuego, delete/recreate the default layouts/base.vuego, make page/component invalid (bad YAML), render the page via Load().Render / RenderFile / Vue.Render, render a second page that names no layout} on a page with front-matter + include + layout + a named slot template that the layout consumes; exhaustive for length <=3 (quick) / <=4 (thorough) each followed by the four renders, plus seeded histories of length 6-20; after every render step the long-lived engine's (bytes, error-ness) is compared with a fresh engine; cache hit/miss/store hook counts prove which comparisons were answered from the cache; non-trivial = history containing at least one edit followed by a render; distinct by the op list"
 }
 
 func (p *c15) exh(ctx core.Ctx) int {
@@ -176,20 +176,20 @@ func c15Content(file string, fv, v int, valid bool) string {
 		if !valid {
 			return fmt.Sprintf("---\n: : [bad %d\n---\n<p>x</p>", v)
 		}
-		return fmt.Sprintf("---\nlayout: lay\nfm: F%d\n---\n<main data-p=\"P%d\">{{ fm }} <template include=\"c.vuego\"></template></main>", fv, v)
+		return fmt.Sprintf("---\nlayout: lay\nfm: F%d\n---\n<template #side><i data-ps=\"P%d\">side</i></template><main data-p=\"P%d\">{{ fm }} <template include=\"c.vuego\"></template></main>", fv, v, v)
 	case c15Comp:
 		if !valid {
 			return fmt.Sprintf("---\n: : [bad %d\n---\n<p>x</p>", v)
 		}
 		return fmt.Sprintf("---\ncfm: CF%d\n---\n<section data-c=\"C%d\">{{ cfm }}</section>", fv, v)
 	case c15Shadow:
-		return fmt.Sprintf("---\nlfm: LF%d\n---\n<html><body data-l=\"L%d\" class=\"shadow\">{{ lfm }} {{ fm }}<div v-html=\"content\"></div></body></html>", fv, v)
+		return fmt.Sprintf("---\nlfm: LF%d\n---\n<html><body data-l=\"L%d\" class=\"shadow\">{{ lfm }} {{ fm }}<aside><slot name=\"side\">ns</slot></aside><div v-html=\"content\"></div></body></html>", fv, v)
 	case c15Base:
 		return fmt.Sprintf("<html><body data-l=\"L%d\" class=\"base\"><div v-html=\"content\"></div></body></html>", v)
 	case c15Page2:
 		return fmt.Sprintf("<main data-p=\"P%d\">q <template include=\"c.vuego\"></template></main>", v)
 	default:
-		return fmt.Sprintf("---\nlfm: LF%d\n---\n<html><body data-l=\"L%d\">{{ lfm }} {{ fm }}<div v-html=\"content\"></div></body></html>", fv, v)
+		return fmt.Sprintf("---\nlfm: LF%d\n---\n<html><body data-l=\"L%d\">{{ lfm }} {{ fm }}<aside><slot name=\"side\">ns</slot></aside><div v-html=\"content\"></div></body></html>", fv, v)
 	}
 }
 
